@@ -312,6 +312,7 @@ def finish(run: Run, level_text, assumptions, undecided, extra=None, out=print, 
             "known_findings_matched": [{"key": v.key, "what": k.get("what")} for v, k in matched],
             "new_violations": [v.as_dict() for v, _ in new][:50],
             "analysis_errors": [{"rule": r, "error": e} for r, e in errs],
+            "renamed_anchors": list(getattr(run.repo, "renamed", []) or []),
             **(extra or {}),
         },
         "assumptions": assumptions,
